@@ -529,24 +529,30 @@ Lemma enabled_list_exact_lemma provided user custom p bundled noticed t :
   user_wf user = true ->
   (forall c t', In (c, t') bundled -> rule_level_of provided c t' <> None) ->
   let merged := linter_config provided user custom in
-  In t (determine_enabled_rules p merged bundled noticed) <->
-  exists c, In (c, t) bundled /\ builtin_can_report p merged c t false (noticed c t) = true.
+  In t (determine_enabled_rules p merged bundled noticed custom) <->
+  (exists c, In (c, t) bundled /\ builtin_can_report p merged c t false (noticed c t) = true) \/
+  (exists c, In (c, t) custom /\ custom_can_report p merged c t false = true).
 Proof.
-  intros Hwf Hsub merged. unfold determine_enabled_rules. rewrite in_map_iff. split.
-  - intros [[c t'] [Ht Hin]]. simpl in Ht. subst t'. apply filter_In in Hin as [Hin Hf]. simpl in Hf.
-    exists c. split; [assumption|].
-    unfold builtin_can_report, rules_to_run_has.
-    apply andb_true_iff in Hf as [Hn Hi].
-    assert (He : entry_of merged c t <> None).
-    { unfold entry_of. subst merged. rewrite (linter_config_level _ _ _ _ _ Hwf). unfold has_entry.
-      specialize (Hsub _ _ Hin). destruct (rule_level_of provided c t); [discriminate | contradiction]. }
-    destruct (entry_of merged c t) eqn:E; [|contradiction].
-    rewrite Hi, Hn. reflexivity.
-  - intros [c [Hin Hc]]. exists (c, t). split; [reflexivity|]. apply filter_In. split; [assumption|]. simpl.
-    unfold builtin_can_report, rules_to_run_has in Hc.
-    destruct (entry_of merged c t) eqn:E; [|discriminate].
-    apply andb_true_iff in Hc as [Hc Hn]. apply andb_true_iff in Hc as [Hi _].
-    rewrite Hn, Hi. reflexivity.
+  intros Hwf Hsub merged. unfold determine_enabled_rules. rewrite in_app_iff, !in_map_iff. split.
+  - intros [[[c t'] [Ht Hin]]|[[c t'] [Ht Hin]]]; simpl in Ht; subst t';
+      apply filter_In in Hin as [Hin Hf]; simpl in Hf.
+    + left. exists c. split; [assumption|].
+      unfold builtin_can_report, rules_to_run_has.
+      apply andb_true_iff in Hf as [Hn Hi].
+      assert (He : entry_of merged c t <> None).
+      { unfold entry_of. subst merged. rewrite (linter_config_level _ _ _ _ _ Hwf). unfold has_entry.
+        specialize (Hsub _ _ Hin). destruct (rule_level_of provided c t); [discriminate | contradiction]. }
+      destruct (entry_of merged c t) eqn:E; [|contradiction].
+      rewrite Hi, Hn. reflexivity.
+    + right. exists c. split; [assumption|]. unfold custom_can_report. rewrite Hf. reflexivity.
+  - intros [[c [Hin Hc]]|[c [Hin Hc]]].
+    + left. exists (c, t). split; [reflexivity|]. apply filter_In. split; [assumption|]. simpl.
+      unfold builtin_can_report, rules_to_run_has in Hc.
+      destruct (entry_of merged c t) eqn:E; [|discriminate].
+      apply andb_true_iff in Hc as [Hc Hn]. apply andb_true_iff in Hc as [Hi _].
+      rewrite Hn, Hi. reflexivity.
+    + right. exists (c, t). split; [reflexivity|]. apply filter_In. split; [assumption|]. simpl.
+      unfold custom_can_report in Hc. rewrite andb_true_r in Hc. exact Hc.
 Qed.
 
 (* ------------------------------------------------------------------------------------------ *)
@@ -566,3 +572,11 @@ Example pinned_empty_category_default_hides_global :
   rule_level_of (load_config_pinned provided (Some user)) [99] [114] = Some s_error /\
   rule_level_of (load_config provided (Some user)) [99] [114] = Some s_ignore.
 Proof. vm_compute. split; reflexivity. Qed.
+
+Example pinned_enabled_list_omits_custom_rule :
+  let custom := [([99], [114])] in
+  let merged := linter_config [] None custom in
+  custom_can_report no_params merged [99] [114] false = true /\
+  determine_enabled_rules_pinned no_params merged [] (fun _ _ => false) = [] /\
+  determine_enabled_rules no_params merged [] (fun _ _ => false) custom = [[114]].
+Proof. vm_compute. repeat split. Qed.
